@@ -7,6 +7,10 @@ EFFECTS_OK = ["Allow", "Deny", "allow", "deny", "ALLOW", "DENY", "aLLOW", "dENY"
 EFFECTS_BAD = ["Permit", "allowed", "", "Allow ", " Deny", "Al low", "Alow", "Denied", "allow\n", "ALLOWW", "D", "ﬁ", "Ａllow", "allοw"]
 
 
+def pd_of(PolicyDocument, stmts):
+    return PolicyDocument(Statement=stmts)
+
+
 def run(report, tier, seed, driver, proofs_ok):
     from pydantic import ValidationError
 
@@ -48,7 +52,7 @@ def run(report, tier, seed, driver, proofs_ok):
     for i in range(n):
         stmts = []
         for j in range(rng.choice([1, 1, 2, 3, 4])):
-            st = {"Effect": rng.choice(EFFECTS_OK), "Action": "s3:GetObject", "Resource": "*"}
+            st = {"Effect": rng.choice(EFFECTS_OK), "Action": rng.choice(["s3:GetObject", "s3:Get*", ["s3:GetObject", "s3:PutObject"], "iam:PassRole"]), "Resource": "*"}
             r = rng.random()
             if r < 0.7:
                 st["Principal"] = gen.gen_principal(rng)
@@ -96,6 +100,13 @@ def run(report, tier, seed, driver, proofs_ok):
             want = sorted(set(pd2.non_whitelisted_allowed_principals(wl))) if pd2 else []
         except Exception:
             continue
+        try:
+            all_actions = pd_of(PolicyDocument, stmts).get_allowed_actions()
+            allow_actions = pd2.get_allowed_actions() if pd2 else []
+            if all_actions != allow_actions:
+                report.violation("oracle", "deny-statements-change-the-allowed-action-query", op={"stmts": stmts}, impl={"all": len(all_actions), "allow_only": len(allow_actions)})
+        except Exception as ex:
+            report.violation("oracle", "allowed-action-query-raises-" + common.exc_class(ex), op={"stmts": stmts})
         if want != io["nonwl_allowed"]:
             report.violation("oracle", "deny-statements-change-the-allowed-principal-query", op={"stmts": stmts, "whitelist": wl}, impl={"all": io["nonwl_allowed"], "allow_only": want})
     report.notes += [
